@@ -154,7 +154,7 @@ fn get_state<'a, 'b>(
                     if *c == current_char {
                         (None, State::DelimiterStart(current_chars))
                     } else {
-                        (None, State::Text)
+                        get_state(c, delimiter_start, delimiter_end, State::Text)
                     }
                 }
                 None => (None, State::InDelimiter),
@@ -176,7 +176,7 @@ fn get_state<'a, 'b>(
                     if *c == current_char {
                         (None, State::DelimiterEnd(current_chars))
                     } else {
-                        (None, State::InDelimiter)
+                        get_state(c, delimiter_start, delimiter_end, State::InDelimiter)
                     }
                 }
                 None => (
